@@ -186,6 +186,7 @@ type actOpts struct {
 	existingInQa  bool
 	existingSt    []pod_status.PodStatus
 	gang          int  // job j0 is a gang of this many tasks with minMember == size (0/1: single pod)
+	queueDepth    int  // > 0: configured queue depth of the allocate action (only that many jobs of a queue are considered)
 	gangDead      bool // explored: the gang\'s last member has already failed and was not recreated yet
 }
 
@@ -265,6 +266,9 @@ func actAllocateWorld(o actOpts) *actWorld {
 		w.addJob(name, eq, true, 0, 0, 1, []float64{cpu}, []pod_status.PodStatus{st}, []string{"n0"})
 	}
 	w.open()
+	if o.queueDepth > 0 {
+		w.ssn.Config.QueueDepthPerAction = map[string]int{"allocate": o.queueDepth}
+	}
 	for n, node := range w.nodes {
 		vr.Assume(w.usedOn(node.Name) <= w.ncpu[n]) // reachable snapshot: nothing oversubscribed yet
 	}
